@@ -186,6 +186,8 @@ def _membership_only(fn, call, depth=0) -> bool:
         node, par = par, getattr(par, "_parent", None)      # a tuple key containing the id is still a key
     if isinstance(par, ast.Call) and isinstance(par.func, ast.Attribute) and par.func.attr in ("add", "discard", "remove") and node in par.args:
         return True
+    if isinstance(par, ast.Call) and isinstance(par.func, ast.Attribute) and par.func.attr in ("setdefault", "get", "pop") and par.args and node is par.args[0]:
+        return True           # d.setdefault(id(x), ...) / d.get(id(x)): the id is the key
     if isinstance(par, ast.Compare) and all(isinstance(o, (ast.In, ast.NotIn, ast.Eq, ast.NotEq)) for o in par.ops):
         return True
     if isinstance(par, ast.Subscript) and node is par.slice:
